@@ -1,22 +1,19 @@
 #!/bin/bash
-# Re-runs every claimed quick check against every adopted mutant (scratch worktrees) and rewrites the detected_by /
+# Re-runs every rule against every adopted mutant (scratch worktrees, tools/detect.py) and rewrites the detected_by /
 # own_property_check_exit entries of seeded/<name>/meta.json. Prints one summary line per mutant.
-for d in /verif/seeded/*/; do
-  name=$(basename $d); prop=$(echo $name | cut -d- -f1)
-  DET=$(/verif/tools/try_patch.sh $d/patch.diff 2>&1)
-  python3 - "$d/meta.json" "$prop" <<PY
-import json,sys,re
-path,prop=sys.argv[1:3]
+one() {
+  d=$1; name=$(basename $d); prop=$(echo $name | cut -d- -f1)
+  DET=$(/verif/tools/detect.py $d/patch.diff)
+  python3 - "$d/meta.json" "$prop" "$DET" "$name" <<'PY'
+import json,sys
+path,prop,det,name=sys.argv[1:5]
 m=json.load(open(path))
-det="""$DET"""
-by={}; cur=None
-for line in det.splitlines():
-    mm=re.match(r"== (C\d+) exit=(\d+)",line)
-    if mm: cur=mm.group(1); by[cur]={"exit":int(mm.group(2)),"reports":[]}
-    elif cur and line.startswith(("violated","undecided")): by[cur]["reports"].append(re.sub(r"/tmp/trypatch/wt\.\d+/","",line)[:300])
-m["detected_by"]={k:v for k,v in by.items() if v["exit"]!=0}
-m["own_property_check_exit"]=by.get(prop,{}).get("exit")
+by=json.loads(det or "{}")
+m["detected_by"]=by
+m["own_property_check_exit"]=by.get(prop,{}).get("exit",0)
 json.dump(m,open(path,"w"),indent=1)
-print("$name","own:",m["own_property_check_exit"],"by:",sorted(m["detected_by"]))
+print(name,"own:",m["own_property_check_exit"],"by:",sorted(by))
 PY
-done
+}
+export -f one
+ls -d /verif/seeded/*/ | xargs -P 8 -I{} bash -c 'one {}' | sort
